@@ -1,9 +1,11 @@
 (* Trace replay of Model/TunnelRelay.v for the correspondence run (C17, group tunnel-relay).
-   The harness drives a real TrzszRelay over real sockets one event at a time and lets it
-   settle in between; [rtr_settle] runs every enabled thread of the model to quiescence with
-   a fixed scheduler (acceptor, handlers by index, writers, pumps).  A handler that has
-   reached the connector call waits for the harness's `dial` event, which carries what the
-   connector returned.  Executable definitions only. *)
+   The harness drives a real TrzszRelay over real sockets and pipes one event at a time and lets
+   it settle in between; [rtr_settle] runs every enabled thread of the model to quiescence with a
+   fixed scheduler (acceptor, handlers by index, the handshake goroutine, writers, pumps).  A handler
+   that has reached the connector call waits for the harness's `dial` event, which carries what the
+   connector returned; the handshake goroutine at a readLine waits for the `hs-read` event, which
+   carries what the line means (the harness wrote it); the lines the relay writes itself are the
+   tokens the harness canonicalises them to.  Executable definitions only. *)
 From Trzsz Require Import Base.Bytes Gen.Consts Model.Tunnel Model.TunnelRelay.
 From Coq Require Import ZArith.
 
